@@ -258,6 +258,9 @@ func DoWith(hc *http1.HostClient, req *protocol.Request, timeout time.Duration, 
 
 // DoInto is DoWith into a Response object the caller owns and keeps using for its next
 // calls (a request loop with one Response, never released); nil takes one from the pool.
+// AtReturn, if set, runs in the calling goroutine of Do right after Do has returned.
+var AtReturn func()
+
 func DoInto(hc *http1.HostClient, req *protocol.Request, own *protocol.Response, timeout time.Duration, prep func(*protocol.Response)) *Outcome {
 	done := make(chan *Outcome, 1)
 	go func() {
@@ -277,6 +280,9 @@ func DoInto(hc *http1.HostClient, req *protocol.Request, own *protocol.Response,
 			prep(resp)
 		}
 		o.Err = hc.Do(context.Background(), req, resp)
+		if AtReturn != nil {
+			AtReturn() // (what the peer has delivered when Do returns, before the stream is read)
+		}
 		if o.Err == nil {
 			Collect(resp, o)
 			if resp.IsBodyStream() {
@@ -324,6 +330,14 @@ type SeqConn struct {
 	wasReset              bool
 	stallArmed            bool
 	delivered             int // bytes of the current response delivered so far
+	total                 int // response bytes delivered over the connection's life
+}
+
+// Delivered is the number of response bytes the client has taken off the connection so far.
+func (c *SeqConn) Delivered() int {
+	c.mu.Lock()
+	defer c.mu.Unlock()
+	return c.total
 }
 
 // timeoutErr is what a read deadline yields on a real connection.
@@ -399,6 +413,7 @@ func (c *SeqConn) Read(p []byte) (int, error) {
 		}
 		n := copy(p, fr[0])
 		c.delivered += n
+		c.total += n
 		if n == len(fr[0]) {
 			fr = fr[1:]
 		} else {
